@@ -25,7 +25,7 @@ TIMEOUT = {'quick': 1500, 'thorough': 3 * 3600}
 RULE = ('R1 cases: (notation, pair of argument tuples). R2 cases: (module, optimize, phase file). distinct_nontrivial = distinct (notation, tuple pair) whose expansions '
         'differ plus distinct module files with at least 5 steps.')
 ASSUMPTIONS = ['arguments in positions the definition does not depend on may legitimately be hidden', 'Instantiate keys are compared up to the documented reversal between the two formats']
-FLOORS = {'quick': {'r1_pairs': 3000, 'r1_pairs_different_expansion': 2000, 'r2_files_compared': 400, 'r2_steps_compared': 10000, 'mprint_calls': 2000, 'r1_instantiated_applications': 100, 'r1_unsorted_key_applications': 50, 'r1_partial_then_instantiated_applications': 20,
+FLOORS = {'quick': {'r1_pairs': 3000, 'r1_pairs_different_expansion': 2000, 'r2_files_compared': 400, 'r2_steps_compared': 10000, 'mprint_calls': 2000, 'r1_instantiated_applications': 100, 'r1_unsorted_key_applications': 50, 'r1_self_nested_pairs': 30, 'r1_partial_then_instantiated_applications': 20,
                     'family:propositional': 500, 'family:definedness': 400, 'family:kore': 1500, 'family:forall': 100, 'family:sorted_exists': 100, 'family:kore_exists': 100, 'family:nary_app': 300}}
 FLOORS['thorough'] = dict(FLOORS['quick'])
 
@@ -110,6 +110,18 @@ def r1_workload(ctx, rng):
                 i, j = rng.sample(range(k), 2)
                 v[i], v[j] = v[j], v[i]
                 tuples.append(tuple(v))
+        # an argument that is itself an application of the same notation, nested on the left and on the right: N(N(a,b),c) vs N(a,N(b,c))
+        if k >= 2:
+            at = [P.Symbol(f'n{t}') for t in range(3)]
+            fill = [P.Symbol(f'fill{i}') for i in range(k)]
+            for i in range(k):
+                for j in range(i + 1, k):
+                    inner1 = list(fill); inner1[i], inner1[j] = at[0], at[1]
+                    outer1 = list(fill); outer1[i], outer1[j] = N_(*inner1), at[2]
+                    inner2 = list(fill); inner2[i], inner2[j] = at[1], at[2]
+                    outer2 = list(fill); outer2[i], outer2[j] = at[0], N_(*inner2)
+                    tuples.append(tuple(outer1)); tuples.append(tuple(outer2))
+                    ctx.count('r1_self_nested_pairs')
         rendered = []
         apps = [(args, N_(*args), 'direct') for args in tuples]
         # the same applications reached through instantiate: an open argument (metavariable) in front of closed ones, then filled in
